@@ -46,14 +46,22 @@ def gaussian_checks(inp, A):
     got2 = op.twoStepFresnel(U0, wvl, d, m * d, z)
     centred = (x0 == 0 and y0 == 0)
     tag = "centred beam" if centred else "off-centre beam"
-    # orientation: compared as returned ...
-    A(("Gaussian beam twoStepFresnel as returned/%s" % tag, oc.relerr(got2, analytic(Xm, Ym)), 5e-3))
     gotm = op.angularSpectrum(U0, wvl, d, m * d, z)
-    A(("angularSpectrum(mag) vs twoStepFresnel as returned/%s" % tag, oc.relerr(gotm, got2), 5e-3))
-    # ... and up to the point reflection about the grid origin (known finding C11-twostep-point-reflected)
-    got2r = numpy.roll(got2[::-1, ::-1], 1, (0, 1))
-    A(("Gaussian beam twoStepFresnel up to point reflection", oc.relerr(got2r, analytic(Xm, Ym)), 5e-3))
-    A(("angularSpectrum(mag) vs twoStepFresnel up to point reflection", oc.relerr(gotm, got2r), 5e-3))
+    # the two-step method passes through an intermediate plane at distance Dz1 = z/(1-m) sampled at wvl|Dz1|/(N d): the
+    # comparison is only meaningful when that grid resolves and contains the beam there ("beams resolved by the grid")
+    Dz1 = z / 2.0 if m == 1 else z / (1.0 - m)
+    w_int = w0 * numpy.sqrt(1 + (Dz1 / zR) ** 2)
+    d1a = wvl * abs(Dz1) / (N * d)
+    reach = max(abs(x0), abs(y0))
+    resolved = (N * d1a / 2.0 >= reach + 3.0 * w_int) and (d1a <= w_int / 2.5) and (N * m * d / 2.0 >= reach + 3.0 * w)
+    if resolved:
+        # orientation: compared as returned ...
+        A(("Gaussian beam twoStepFresnel as returned/%s" % tag, oc.relerr(got2, analytic(Xm, Ym)), 5e-3))
+        A(("angularSpectrum(mag) vs twoStepFresnel as returned/%s" % tag, oc.relerr(gotm, got2), 5e-3))
+        # ... and up to the point reflection about the grid origin (known finding C11-twostep-point-reflected)
+        got2r = numpy.roll(got2[::-1, ::-1], 1, (0, 1))
+        A(("Gaussian beam twoStepFresnel up to point reflection", oc.relerr(got2r, analytic(Xm, Ym)), 5e-3))
+        A(("angularSpectrum(mag) vs twoStepFresnel up to point reflection", oc.relerr(gotm, got2r), 5e-3))
     # one-step: output spacing wvl z/(N d); only meaningful when that grid still resolves the beam
     d2 = wvl * z / (N * d)
     if 4 * d2 < w and N * d2 > 6 * (w + max(abs(x0), abs(y0))):
